@@ -441,7 +441,7 @@ def sweep_c05():
             '  void c(in XFoo x);\n  void d(in q.Foo x);\n  void e(in other.q.Foo x);\n  void f(in IBinder x);\n  void g(in Foo x);\n  void h(in Sibling x);\n  void i(in p.Sibling x);\n}\n')
     # a QUALIFIED forward declaration does not put its last segment in scope (`parcelable other.pkg.Qd;` + reference `Qd`)
     # an import whose last identifier merely ENDS with the written name does not match it (`import a.b.XOther;` + reference `Other`)
-    text = text.replace('import p.q.Foo;', 'import p.q.Foo;\nimport a.b.XOther;').replace('  void h(', '  void n(in Other x);\n  void h(')
+    text = text.replace('import p.q.Foo;', 'import p.q.Foo;\nimport a.b.XOther;').replace('  void h(', '  void n(in Other x);\n  void o(in XFoo a, in List<XFoo> b);\n  void h(')
     text = text.replace('interface I {', 'parcelable other.pkg.Qd;\nparcelable Ud;\ninterface I {').replace('  void h(', '  void j(in Qd x);\n  void k(in List<Qd> x);\n  void l(in Ud x);\n  void h(')
     # Sibling lives in the same package but is not imported: AIDL has no implicit same-package scope
     r2 = replay.project({'main.aidl': text, 'foo.aidl': 'package p.q;\nparcelable Foo { int a; }\n', 'sib.aidl': 'package p;\nparcelable Sibling { int a; }\n'})
@@ -458,6 +458,12 @@ def sweep_c05():
         errs = [d for d in fr['diags'] if d['range'][:2] == m['args'][0]['type']['sym'][:2] and d['kind'] == 'Error' and 'Unknown type' in d['message']]
         if len(errs) != 1:
             bad.append({'method': k, 'what': '%d unknown-type Errors on a near-miss name' % len(errs)})
+    # every occurrence of an unknown name is reported, not only the first one in the file
+    m = [x for x in fr['ast']['members'] if x['name'] == 'o'][0]
+    for sym in (m['args'][0]['type']['sym'], m['args'][1]['type']['generic'][0]['sym']):
+        errs = [d for d in fr['diags'] if d['range'][:2] == sym[:2] and d['kind'] == 'Error' and 'Unknown type' in d['message']]
+        if len(errs) != 1:
+            bad.append({'method': 'o', 'what': '%d unknown-type Errors on a repeated unknown name at %s' % (len(errs), sym[:2])})
     return n, bad
 
 
@@ -643,7 +649,7 @@ def sweep_c04():
 def sweep_c09():
     """all method sequences of length <= 4 over 2 names x {no code, 2 codes}, constants interleaved; reference written from the statement."""
     import itertools
-    alphabet = [(nm, code) for nm in ('aa', 'bb') for code in (None, 1, 2)]
+    alphabet = [(nm, code) for nm in ('aa', 'bb') for code in (None, 1, 4294967295)]      # a small code and the largest one a u32 holds
     seqs = []
     for L in range(1, 5):
         seqs += list(itertools.product(alphabet, repeat=L))
@@ -882,6 +888,7 @@ H_CONTENTS = {
     'c1.aidl': 'package p; parcelable B { int x; }',
     'c2.aidl': 'package q; enum C { X, Y }',
     'c3.aidl': 'package r; interface D { oneway int f(); void g(; }',
+    'c4.aidl': 'package p',          # unrecoverable: no tree
 }
 
 
@@ -937,6 +944,7 @@ def sweep_c13():
         ('file defining a qualified name the observed file uses without importing it', dict(base, **{'e.aidl': 'package zz; parcelable Q { int a; }'})),
         ('same-package file defining a simple name the observed file uses without importing it', dict(base, **{'e.aidl': 'package p; parcelable Unimported { int a; }'})),
         ('two files defining a simple name the observed file uses without importing it', dict(base, **{'e.aidl': 'package zz; parcelable Unimported { int a; }', 'f.aidl': 'package yy; interface Unimported { void f(); }'})),
+        ('unrelated file named like a missing import, in another package', dict(base, **{'e.aidl': 'package other.pkg; parcelable Gone { int a; }'})),
         ('only the observed file left', {'a.aidl': obs, 'b.aidl': base['b.aidl'], 'c.aidl': base['c.aidl']}),
         ('unrelated file importing the observed one', dict(base, **{'e.aidl': 'package s; import p.A; interface E { void f(in A a); }'})),
     ]
@@ -966,7 +974,7 @@ def sweep_c13():
 C02_DOCS = {
     'm.aidl': ('package a . b . c ; import x . y . Z ; import q . W ; parcelable fwd . Decl ; @Top ( k0 = 1 , k1 = "s" ) oneway interface Iface { '
                '@Ann0 ( p = true ) RetT mname ( in ArgT0 aname0 , out @AnnA Map < String , List < ArgT1 > > aname1 , inout int [ ] arr , IBinder ) = 7 ; '
-               'const int CNAME = 12 ; const String S = "str" ; oneway void second ( ) ; List raw ( Map m , ) ; }'),
+               'const int CNAME = 12 ; const String S = "str" ; oneway void second ( ) = 4294967295 ; List raw ( Map m , ) = 007 ; }'),
     'e.aidl': 'package e ; @Backing ( type = "byte" ) enum E { @Dep A = 1 , B , C = "x" , }',
     'p.aidl': ('package p ; parcelable P { int x = 5 ; @F float [ ] fs = { 1.0f , 2 } ; String s ; Other . Name on = Foo . BAR ; const boolean T = true ; '
                'double d = -.5f ; CharSequence cs ; int_ inout2 ; const int _lead = 0 ; Listing trail_ ; }'),
@@ -1006,8 +1014,8 @@ def c02_expectations(trees):
         exp('argument directions', [a['direction'] for a in mm['args']], ['in', 'out', 'inout', ''])
         exp('argument types', [ty(a['type']) for a in mm['args']], ['ArgT0', 'Map<String,List<ArgT1>>', 'Array<int>', 'IBinder'])
         exp('constants', [(x['name'], ty(x['type']), x['value']) for x in mem[1:3]], [('CNAME', 'int', '12'), ('S', 'String', '"str"')])
-        exp('second method', (ty(mem[3]['ret']), mem[3]['oneway'], mem[3]['code'], mem[3]['args']), ('void', True, None, []))
-        exp('raw containers', (ty(mem[4]['ret']), [ty(a['type']) for a in mem[4]['args']]), ('List', ['Map']))
+        exp('second method (largest transact code)', (ty(mem[3]['ret']), mem[3]['oneway'], mem[3]['code'], mem[3]['args']), ('void', True, 4294967295, []))
+        exp('raw containers (zero-padded code)', (ty(mem[4]['ret']), [ty(a['type']) for a in mem[4]['args']], mem[4]['code']), ('List', ['Map'], 7))
     exp('annotations of the interface file', [(a['owner'], a['name'], a['params']) for a in m['annotations']],
         [('item', '@Top', [['k0', '1'], ['k1', '"s"']]), ('mname', '@Ann0', [['p', 'true']]), ('mname#1', '@AnnA', [])])
     e = trees['e.aidl']
